@@ -269,6 +269,19 @@ func ruleFiltered(p *Prog, r *Result) {
 					}
 					okv = true
 				})
+				if !okv {
+					// a filter that is the constant `true` accepts every pair: a return under a test that the filter's
+					// expression is a *BoolExpr whose Bool is true needs no evaluation
+					for _, a := range dominatingAtoms(b) {
+						bv, isB := constBool(a.Y)
+						if !isB || ((a.Op == token.EQL) != bv) {
+							continue
+						}
+						if p.derivesFromField(a.X, "BoolExpr", "Bool", traceOpts{IntoReturns: true, MaxDepth: 2}) && p.isTrueOnlyUnder(a.X, "BoolExpr", "Bool") {
+							okv = true
+						}
+					}
+				}
 				r.add(okv, key, p.InstrPos(ret), "a pair is returned only if the filter accepted that pair: "+map[bool]string{true: "ok", false: why}[okv])
 			}
 			if n == 0 {
@@ -964,4 +977,45 @@ func isCompactCall(c *ssa.Call) bool {
 		o = f.Origin()
 	}
 	return o.Pkg != nil && o.Pkg.Pkg.Path() == "slices" && o.Name() == "Compact"
+}
+
+// isTrueOnlyUnder: the Boolean v can be true only when a loaded field owner.field is true: v is
+// that load, a phi of it with false, or the result of a package helper whose result has this form.
+func (p *Prog) isTrueOnlyUnder(v ssa.Value, owner, field string) bool {
+	var rec func(x ssa.Value, d int) bool
+	rec = func(x ssa.Value, d int) bool {
+		if d > 5 {
+			return false
+		}
+		if bv, ok := constBool(x); ok {
+			return !bv
+		}
+		if isFieldLoad(x, owner, field) {
+			return true
+		}
+		switch y := x.(type) {
+		case *ssa.Phi:
+			for _, e := range y.Edges {
+				if !rec(e, d+1) {
+					return false
+				}
+			}
+			return true
+		case *ssa.Call:
+			g := y.Call.StaticCallee()
+			if g == nil || !p.InPkg(g) || len(g.Blocks) == 0 {
+				return false
+			}
+			for _, b := range g.Blocks {
+				if ret := retOf(b); ret != nil {
+					if len(ret.Results) != 1 || !rec(retVal(ret, 0), d+1) {
+						return false
+					}
+				}
+			}
+			return true
+		}
+		return false
+	}
+	return rec(v, 0)
 }
